@@ -546,7 +546,9 @@ def c02_extra(pid, tier, seed):
         viol = []
         mine = 'ContentLost' if pid == 'C01' else 'OffsetReused'
         if r.returncode != 0 or not res or 'Hang' in res[0] or 'Panic' in res[0].split()[:3] or \
-                not (res[0].startswith('= ok') or (res[0].startswith('= err') and mine not in res[0] and 'open' not in res[0].split()[:3])):
+                not (res[0].startswith('= ok') or (res[0].startswith('= err') and mine not in res[0] and 'open' not in res[0].split()[:3]
+                                                   # an offset that reads back another message than the one published at it was assigned twice
+                                                   and not (pid == 'C02' and 'ContentLost' in res[0] and 'published key' in res[0]))):
             viol.append(('P', '# %s violated: ' % pid + ('a message at the 64 MiB body limit is not read back as published\n' if pid == 'C01' else
                               'a batch refused (or accepted) at the 64 MiB body limit left offsets assigned twice\n') +
                               '# workload (kvrun conc: cedge): on an empty log Publish [a, b, BIG] with key+value of BIG = 64 MiB - d, then Publish [c], '
